@@ -593,6 +593,15 @@ def corpus():
                                                                      {"name": "fireS", "kind": "xset_if", "slot": 0, "a": 5, "t": 1, "b": 1},
                                                                      {"name": "fireB", "kind": "xset_if", "slot": 0, "a": 50, "t": 1, "b": 2}]}],
             {"kind": "slot_ne", "addr": C0, "slot": 1, "k": b}, 2)
+    # the invariant's OWN run on every frontier state: the invariant reads the slot that holds the stored SYMBOL, so it
+    # branches on a symbolic condition of the same shape (x == b) on several frontier states; the two end states of set(x)
+    # carry contradicting constraints on x (x > 9 / x <= 9).  Each state has to be explored under its own constraints
+    # only -- whatever the run on the previous state left in a solver must not decide the branches of the next one
+    # (siblings at depth 1; at depth 2 behind an enabling transaction)
+    mark = {"name": "mark", "kind": "step", "slot": 1, "a": 0, "b": 1}
+    for side, b in (("lo", 5), ("hi", 15)):
+        add(f"solver-ctx-siblings-{side}", [{"name": "C0", "funcs": [setbr]}], {"kind": "slot_ne", "addr": C0, "slot": 0, "k": b}, 1)
+        add(f"solver-ctx-gated-d2-{side}", [{"name": "C0", "funcs": [mark, dict(setbr, when=[1, 1])]}], {"kind": "slot_ne", "addr": C0, "slot": 0, "k": b}, 2)
     return cs
 
 
@@ -678,6 +687,31 @@ def gen_branch_case(r, idx, max_depth=3):
     if src == "caller_br" and r.random() < 0.4:
         filters["targetSenders"] = [0x1234, 0x99, 0x98]
     return {"name": f"gen-branch-{idx}", "targets": [{"name": "C0", "funcs": funcs}], "invariant": inv, "depth": depth, "filters": filters}
+
+
+def gen_solverctx_case(r, idx, max_depth=2):
+    """grammar for the invariant's own run on sibling frontier states: set(x) stores the argument and branches on it
+    (gt / lt / eq a constant, store before or after the branch), optionally enabled only after mark(); the invariant reads
+    the slot holding the symbol (slot != b, b on either side of the branch), so it branches symbolically, with one condition
+    shape, on every end state of set -- states that share the symbol and carry contradicting constraints on it."""
+    cmp_ = r.choice(["gt", "gt", "lt", "eq"])
+    K = r.randint(3, 40)
+    inside = {"gt": K + 1 + r.randint(0, 5), "lt": max(0, K - 1 - r.randint(0, 2)), "eq": K}[cmp_]
+    outside = {"gt": K - r.randint(0, 2), "lt": K + r.randint(0, 5), "eq": K + 1 + r.randint(0, 3)}[cmp_]
+    side = r.choice(["in", "out"])
+    st = {"name": "set", "kind": "setv_br", "slot": 0, "k": K, "cmp": cmp_}
+    if r.random() < 0.3:
+        st["late"] = True
+    gated = max_depth >= 2 and r.random() < 0.5
+    if gated:
+        funcs = [{"name": "mark", "kind": "step", "slot": 1, "a": 0, "b": 1}, dict(st, when=[1, 1])]
+        depth = 2
+    else:
+        funcs = [st]
+        depth = r.choice([1, 1, min(2, max_depth)])
+    r.shuffle(funcs)
+    inv = {"kind": "slot_ne", "addr": C0, "slot": 0, "k": inside if side == "in" else outside}
+    return {"name": f"gen-solverctx-{idx}", "targets": [{"name": "C0", "funcs": funcs}], "invariant": inv, "depth": depth, "filters": {}}
 
 
 def gen_instances_case(r, idx):
